@@ -167,15 +167,17 @@ def mutate_obs_absent(evs):
 
 def e2e_expiry(ctx):
     import threading
-    jobs = [("udp", "mio", 5000), ("http", None, 5001), ("ws", None, 5002)]
-    if not ctx.quick():
-        jobs.append(("udp", "uring", 5003))
+    jobs = [("udp", "mio", 5000), ("http", None, 5001), ("ws", None, 5002), ("udp", "uring", 5003)]
     out, errors = {}, []
     ths = [threading.Thread(target=e2e_expiry_one, args=(ctx, k, b, r, out, errors)) for k, b, r in jobs]
     for th in ths:
         th.start()
     for th in ths:
         th.join(120)
+    skipped = [e for e in errors if e.startswith("udp/uring") and "exited during start-up" in e]
+    errors = [e for e in errors if e not in skipped]
+    if skipped:
+        ctx.assumptions.append("io_uring backend could not be started in this environment: not exercised by the expiry scenario")
     if errors:
         raise ToolError("expiry e2e driver: " + "; ".join(errors)[:400])
     tp = ctx.path("expiry_e2e.ndjson")
